@@ -14,7 +14,7 @@ use std::time::{Duration, Instant};
 
 pub const AS_LIMIT_BYTES: u64 = 12 << 30;
 /// a single simulated run takes microseconds; a worker stuck on one index this long is hung
-pub const HANG_SECS: u64 = 20;
+pub const HANG_SECS: u64 = 45;
 
 #[derive(Debug, Clone, Copy, PartialEq, Eq)]
 pub enum Died {
